@@ -144,11 +144,27 @@ func (r *ring) removeHost(hostID string) bool {
 				break
 			}
 		}
-		delete(r.hostIPToUUID, h.nodeToNodeAddress().String())
+		r.unindexAddrLocked(h.nodeToNodeAddress().String(), hostID)
 	}
 	delete(r.hosts, hostID)
 	r.mu.Unlock()
 	return ok
+}
+
+// unindexAddrLocked removes the hostIPToUUID entry of addr if it belongs to hostID.
+// The address does not uniquely identify a host: if another host of the ring uses it,
+// that host stays (or becomes) reachable by address. r.mu must be held for writing.
+func (r *ring) unindexAddrLocked(addr, hostID string) {
+	if r.hostIPToUUID[addr] != hostID {
+		return
+	}
+	delete(r.hostIPToUUID, addr)
+	for _, other := range r.hostList {
+		if id := other.HostID(); id != hostID && other.nodeToNodeAddress().String() == addr {
+			r.hostIPToUUID[addr] = id
+			break
+		}
+	}
 }
 
 type clusterMetadata struct {
